@@ -548,6 +548,7 @@ bool QXmppStunMessage::decode(const QByteArray &buffer, const QByteArray &key, Q
     // parse STUN attributes
     int done = 0;
     bool after_integrity = false;
+    bool integrity_verified = false;
     while (done < length) {
         quint16 a_type, a_length;
         stream >> a_type;
@@ -753,6 +754,7 @@ bool QXmppStunMessage::decode(const QByteArray &buffer, const QByteArray &key, Q
                     *errors << u"Bad message integrity"_s;
                     return false;
                 }
+                integrity_verified = true;
             }
 
             // from here onwards, only FINGERPRINT is allowed
@@ -777,7 +779,7 @@ bool QXmppStunMessage::decode(const QByteArray &buffer, const QByteArray &key, Q
             }
 
             // stop parsing, no more attributes are allowed
-            return true;
+            break;
 
         } else if (a_type == IceControlling) {
 
@@ -805,6 +807,12 @@ bool QXmppStunMessage::decode(const QByteArray &buffer, const QByteArray &key, Q
         }
         stream.skipRawData(pad_length);
         done += 4 + a_length + pad_length;
+    }
+
+    // under a key, only a message whose MESSAGE-INTEGRITY was verified is acceptable
+    if (!key.isEmpty() && !integrity_verified) {
+        *errors << u"Missing message integrity"_s;
+        return false;
     }
     return true;
 }
